@@ -25,6 +25,8 @@ RECORDED = {
     'ia+ib': [{'fn': 'in_a', 'a': ['x1'], 'ret': 'u1'}, {'fn': 'in_b', 'a': ['x1'], 'ret': 'u2'}],
     'ib+oa': [{'fn': 'in_b', 'a': ['x1'], 'ret': 'u2'}, {'fn': 'out_a', 'a': ['x1'], 'ret': 'u3'}],
     'iaE+oaE': [{'fn': 'in_a', 'a': ['x1'], 'exc': 'E1'}, {'fn': 'out_a', 'a': ['x1'], 'exc': 'E2'}],
+    'iz+ia+oh': [{'fn': 'in_z', 'a': ['x1'], 'ret': 'u5'}, {'fn': 'in_a', 'a': ['x1'], 'ret': 'u1'}, {'fn': 'out_hdl', 'a': ['x1'], 'ret': 'u4'}],
+    'iaK+oaK': [{'fn': 'in_a', 'a': ['x1'], 'exc': 'KeyError'}, {'fn': 'out_a', 'a': ['x1'], 'exc': 'KeyError'}],
     'ib+oa2+ih': [{'fn': 'in_b', 'a': ['x1'], 'ret': 'u2'}, {'fn': 'out_a', 'a': ['x1'], 'ret': 'u3'}, {'fn': 'out_a', 'a': ['x1'], 'ret': 'u4'},
                   {'fn': 'in_hdl', 'a': ['x1'], 'ret': 'vlst'}],
 }
@@ -38,8 +40,12 @@ PROBES = {
     # absent input whose missing-key error the service does not catch (escapes play)
     'Qx': {'fn': 'in_Q', 'a': ['xs'], 'nocatch': True},
     'h': {'fn': 'in_hdl', 'a': ['x1']}, 'mut': {'do': 'mut'},
+    # main alias iz is recorded AND its fallback ia (which sorts first) is recorded: the main entry answers
+    'Z': {'fn': 'in_Z', 'a': ['x1']},
+    # an output whose data handler fails while replaying: still answered from the recording, body not run
+    'ohf': {'fn': 'out_hdl', 'a': ['x1'], 'fault': 'handler'},
 }
-SHAPES_Q = [('q',), ('Q',), ('o',), ('O',), ('q', 'q2'), ('o', 'o'), ('Q', 'o'), ('q', 'O'), ('b', 'Q'), ('Qn', 'o'), ('h', 'mut', 'h')]
+SHAPES_Q = [('q',), ('Q',), ('o',), ('O',), ('q', 'q2'), ('o', 'o'), ('Q', 'o'), ('q', 'O'), ('b', 'Q'), ('Qn', 'o'), ('h', 'mut', 'h'), ('Z', 'q'), ('ohf', 'o')]
 SHAPES_T = SHAPES_Q + [('q', 'o', 'q2'), ('o', 'O', 'o'), ('Q', 'Q', 'q'), ('O', 'q', 'o'), ('q2', 'b', 'O')]
 
 
@@ -65,14 +71,16 @@ def mkfuncs(fb, ro, miss, fail, default):
         if default is not None:
             d['default'] = default
         return d
-    return {'in_q': inq('ia'), 'in_Q': inq('iq'), 'out_q': outq('oa'), 'out_Q': outq('oq')}
+    z = inq('iz')
+    z['fallback'] = ['ia'] if not isinstance(z.get('fallback'), dict) else {'call': ['ia']}
+    return {'in_q': inq('ia'), 'in_Q': inq('iq'), 'out_q': outq('oa'), 'out_Q': outq('oq'), 'in_Z': z, 'in_z': {'t': 'in', 'style': 'inst', 'alias': 'iz'}}
 
 
 def gen_cases(tier, seed):
     shapes = SHAPES_Q if tier == 'quick' else SHAPES_T
     for rec in RECORDED:
         for shape in shapes:
-            has_in = any(l in ('q', 'q2', 'Q', 'Qn') for l in shape)
+            has_in = any(l in ('q', 'q2', 'Q', 'Qn', 'Z') for l in shape)
             has_out = any(l in ('o', 'O') for l in shape)
             incfgs = list(itertools.product(FALLBACKS, (False, True), MISSING)) if has_in else [('none', False, 'unset')]
             outcfgs = OUTCFG if has_out else [(True, None)]
@@ -108,7 +116,7 @@ def run_case(case):
 
 def _run(case, box):
     viols = []
-    prog1 = {'steps': RECORDED[case['rec']]}
+    prog1 = {'steps': RECORDED[case['rec']], 'funcs': {'in_z': {'t': 'in', 'style': 'inst', 'alias': 'iz'}}}
     R = P.ref(prog1)
     r = P.record(prog1, inner=box.cassette)
     if ('save', r.rec_id) not in r.log:
@@ -147,7 +155,7 @@ def _run(case, box):
             # blame the first differing call
             i = next((i for i, (a, b) in enumerate(zip(got, E['obs'])) if a != b), min(len(got), len(E['obs'])))
             letter = case['shape'][i] if i < len(case['shape']) else '?'
-            kind = 'in' if letter in ('q', 'q2', 'Q', 'b', 'Qn', 'Qx', 'h') else 'out'
+            kind = 'in' if letter in ('q', 'q2', 'Q', 'b', 'Qn', 'Qx', 'h', 'Z') else 'out'
             exp_i = E['obs'][i] if i < len(E['obs']) else None
             got_i = got[i] if i < len(got) else None
             sig = 'policy:%s:expected=%s:got=%s' % (kind, _cls(exp_i), _cls(got_i))
